@@ -47,6 +47,8 @@ def _case(draw):
         ctop = draw(st.integers(0, D - 1))
         spec['specials'] = [[0, draw(st.integers(0, D - 1)), 0],
                             [1, ctop, min(spec['ranges'][ctop], 2 ** spec['widths'][ctop]) - 1]]
+    if draw(st.integers(0, 7)) == 0:
+        spec['names'] = [str(D - j) for j in range(D)]          # names that are numerals: '3', '2', '1' (not their positions)
     form = draw(st.sampled_from(['absent', 'pos', 'neg', 'name', 'list', 'list', 'list1']))
     if form == 'list':
         sel = draw(st.lists(st.integers(0, D - 1), min_size=1, max_size=D, unique=True))
